@@ -195,6 +195,22 @@ func escapeTable(fd *eng.FuncDecl) (map[byte]int, *ast.SwitchStmt) {
 func escapeLookupTable(fd *eng.FuncDecl, tag ast.Expr) map[byte]int {
 	out := map[byte]int{}
 	info := fd.Pkg.TypesInfo
+	// `v := tbl[tag]` / `v, known := tbl[tag]` followed by WriteByte(v): the variable stands for the table entry
+	// (where the entry is missing the variable is set to something else; only the keyed entries are read here)
+	viaVar := map[types.Object]ast.Expr{}
+	ast.Inspect(fd.Decl.Body, func(n ast.Node) bool {
+		as, ok := n.(*ast.AssignStmt)
+		if !ok || as.Tok != token.DEFINE || len(as.Rhs) != 1 || len(as.Lhs) < 1 || len(as.Lhs) > 2 {
+			return true
+		}
+		if _, isIx := as.Rhs[0].(*ast.IndexExpr); !isIx {
+			return true
+		}
+		if id, ok := as.Lhs[0].(*ast.Ident); ok && info.Defs[id] != nil {
+			viaVar[info.Defs[id]] = as.Rhs[0]
+		}
+		return true
+	})
 	ast.Inspect(fd.Decl.Body, func(n ast.Node) bool {
 		call, ok := n.(*ast.CallExpr)
 		if !ok || len(call.Args) != 1 {
@@ -204,6 +220,11 @@ func escapeLookupTable(fd *eng.FuncDecl, tag ast.Expr) map[byte]int {
 			return true
 		}
 		arg := call.Args[0]
+		if id, ok := arg.(*ast.Ident); ok {
+			if ix, ok := viaVar[info.Uses[id]]; ok {
+				arg = ix
+			}
+		}
 		field := ""
 		if se, ok := arg.(*ast.SelectorExpr); ok {
 			field = se.Sel.Name
